@@ -528,7 +528,7 @@ def c04(ctx):
     binp = ctx.t.build('dev')
     mlen = pick(ctx, 2, 3)
     trace = '%s/c04.ndjson' % ctx.work
-    cmd = ctx.t.tlc_cmd('c04_gen', 'MC_C04', cfg(['MaxLen = %d' % mlen], ['EmitTree', 'EmitSingles']), workers=8)
+    cmd = ctx.t.tlc_cmd('c04_gen', 'MC_C04', cfg(['MaxLen = %d' % mlen], ['EmitTree', 'EmitSingles', 'EmitAscii']), workers=8)
     tl = subprocess.Popen(cmd, cwd=ctx.t.SPEC, stdout=subprocess.PIPE, stderr=subprocess.STDOUT)
     with open(trace, 'w') as f:
         rp = subprocess.run([binp, 'compile-trees'], stdin=tl.stdout, stdout=f, stderr=subprocess.PIPE, text=True, timeout=1800)
@@ -544,13 +544,62 @@ def c04(ctx):
         # separator by ANY decoder of the stream: the program prints it verbatim, which is all C04 asks; not judged)
         if r.get('slot', '').startswith('fmt-') and 'outs-mismatch' in v['kinds'] and 30 not in r.get('u', []):
             acc.failures.append({'kinds': ['outs-mismatch'], 'tree': r['t'], 'o': r['o'], 'stage': 'c04lex', 'slot': r['slot']})
+    # WORDS: every string literal / word of the code under test (a value the code treats specially -- a placeholder it
+    # substitutes later, a marker, a delimiter -- has to be spelt in its source) and the usual suspects, as user strings
+    # in 7 slots, each beside the same construct with the benign marker
+    def cpl(x):
+        return [ord(c) for c in x]
+
+    def slot_tree(slot, w):
+        if slot == 'name':
+            return {'k': 'name', 's': cpl(w)}
+        if slot == 'ipath':
+            return {'k': 'and', 'l': {'k': 'ipath', 's': cpl(w)}, 'r': {'k': 'print0'}}
+        if slot in ('pool', 'xattr', 'fprint'):
+            return {'k': slot, 's': cpl(w)}
+        if slot == 'fmt-literal-mid':
+            return {'k': 'printf', 'f': [{'el': 'fld', 'f': 'f'}, {'el': 'lit', 's': cpl(w)}, {'el': 'fld', 'f': 's'}, {'el': 'esc', 'x': 'n'}]}
+        return {'k': 'print'}
+
+    suspects = ['{mdt}', '{}', '%s', '{path}', '$mdt', '@MDT@', '__MDT__', '{0}', '~a', 'MDT', 'core"', '""', 'x""y', 'a\\', '\\"', '(lipe-scan',
+                '"/dev/mdt0"', '/dev/mdt0', '#t', '#f', '()', "'", '`', ',@', '#\\x1e', '%lf3:print:2', '%lf3:match:2', 'mdt', '~%', '~~', '\\n', '\\x41;']
+    try:
+        dwords = [json.loads(l) for l in open(ctx.t.source_dictionary())]
+    except Exception:
+        dwords = []
+    dwords = [w for w in dwords if 2 <= len(w) <= 24 and not w.isalnum()]
+    words = suspects + sorted(set(dwords) - set(suspects))[:pick(ctx, 250, 2000)]
+    wfile = '%s/c04words_in.ndjson' % ctx.work
+    with open(wfile, 'w') as f:
+        for w in words:
+            glob = any(c in w for c in '*?[')
+            for slot in ('name', 'ipath', 'pool', 'xattr', 'fprint', 'fmt-literal-mid', 'device-path'):
+                if slot == 'fmt-literal-mid' and ('%' in w or '\\' in w):
+                    continue
+                marker = 'QZ*Q' if (glob and slot in ('name', 'ipath')) else 'QZQ'
+                mslot = {'fprint': 'fprint-file'}.get(slot, slot)
+                f.write(json.dumps({'t': slot_tree(slot, w), 't0': slot_tree(slot, marker), 'o': {'depth': False, 'threads': []}, 'slot': mslot,
+                                    'u': cpl(w), 'marker': cpl(marker),
+                                    'path': cpl(w if slot == 'device-path' else '/dev/mdt0'),
+                                    'path0': cpl('QZQ' if slot == 'device-path' else '/dev/mdt0')}) + '\n')
+    wtrace = '%s/c04words.ndjson' % ctx.work
+    with open(wtrace, 'w') as f:
+        rp = subprocess.run([binp, 'compile-trees'], stdin=open(wfile), stdout=f, stderr=subprocess.PIPE, text=True, timeout=1800)
+    if rp.returncode != 0:
+        raise ctx.t.ToolError('compile-trees failed on the word list: ' + rp.stderr[-400:])
+    wverdicts = sem_validate(ctx, acc, 'c04words', wtrace, LEX_KINDS, consts='CONSTANT MaxFiles = 3\nCONSTANT Static = FALSE\n', timeout=6000)
+    wrecs = [json.loads(l) for l in open(wtrace) if l.startswith('{')]
+    for v in wverdicts:
+        r = wrecs[v['idx'] - 1]
+        if r.get('slot', '').startswith('fmt-') and 'outs-mismatch' in v['kinds'] and 30 not in r.get('u', []):
+            acc.failures.append({'kinds': ['outs-mismatch'], 'tree': r['t'], 'o': r['o'], 'stage': 'c04words', 'slot': r['slot']})
     # pairs of related user strings (one the other plus an affix): each must still appear as its own literal
     t_sem(ctx, acc, 'c04affix', ['--profile', 'affix', '--no-warmup'], {'user-string-missing', 'malformed-program', 'compile-panic'}, consts='CONSTANT MaxFiles = 1\nCONSTANT Static = FALSE\n')
     # random longer strings
     t_sem(ctx, acc, 'c04rand', ['--count', str(pick(ctx, 300, 5000)), '--seed', str(ctx.seed), '--size', '4', '--hostile', '--no-direct', '--paths', 'hostile'],
           {'user-string-missing', 'malformed-program', 'runtime-error', 'no-scan-call', 'mdt-mismatch', 'compile-panic', 'render-panic', 'iomap-targets-wrong'},
           consts='CONSTANT MaxFiles = 3\nCONSTANT Static = FALSE\n')
-    r = tv_result(acc, 'all strings up to length %d over the 18-symbol alphabet {" \\ ~ %% ( ) ; # LF U+0001 e-acute a SP * [ \' | TAB} in 15 string-carrying slots (name/iname/path/ipath patterns, pool, xattr name, both -xattr-match arguments, output file names, literal format text at the end / in the middle / without newline, %%{xattr:NAME}, device path), injected through the public constructors, and every code point 1..159 plus 23 representatives of the classes beyond once in every slot; each compared with the same construct carrying a benign marker of the same wildcard class; plus seeded random hostile strings up to length 5 in random trees rendered for hostile device paths' % mlen,
+    r = tv_result(acc, 'all strings up to length %d over the 18-symbol alphabet {" \\ ~ %% ( ) ; # LF U+0001 e-acute a SP * [ \' | TAB} in 15 string-carrying slots (name/iname/path/ipath patterns, pool, xattr name, both -xattr-match arguments, output file names, literal format text at the end / in the middle / without newline, %%{xattr:NAME}, device path), injected through the public constructors, and every code point 1..159 plus 23 representatives of the classes beyond once in every slot, the same code points written as octal escapes of a format, and the strings and words spelt in the source of the code under test (placeholders, markers, delimiters) plus 32 usual suspects in 7 slots; each compared with the same construct carrying a benign marker of the same wildcard class; plus seeded random hostile strings up to length 5 in random trees rendered for hostile device paths' % mlen,
                   ["oracle: SchemeRead.tla (Guile's lexical syntax incl. its string escape set): exactly two top-level forms, equal skeletons, string literals equal except where the marker stood and decoding to the user string ('~' doubled in format templates), executed outputs equal find's for the format slots"],
                   level='model_checking')
     return r
